@@ -7,6 +7,10 @@ A history is a list of commands for harness/drive_level; the first one is an ini
   {"o":"pc","ch":c,"p":p}   {"o":"cc","ch":c,"n":7|11|74|67,"v":x}   {"o":"mv","v":mm,"l":ll}
   {"o":"on","ch":c,"k":k,"v":vel}   {"o":"off","ch":c,"k":k}   {"o":"set","s":"vm"|"smod"|"frb","v":x}
   {"o":"sweep","ax":"vel"|"vol"|"expr"|"mv"|"bright","ch":c,"k":k,"lo":a,"hi":b,"st":+-s}
+  {"o":"gen","fr":frames,"blk":frames per opn2_generate call}     time passes (arpeggio turns, notes end)
+  {"o":"bend","ch":c,"v":0..16383}                                pitch bend (re-keys the notes of the channel)
+init options: "arp":1 automatic arpeggio on, "lim":n only n chip channels, "kon":1 record every key-on of a chip
+channel with the TL registers in force and the note that owns the channel (+ the sounding notes after every call).
 """
 import itertools, random
 
@@ -35,11 +39,23 @@ def banks(tlset=0, veloffs=None, tls=None):
     return [{"p": 0, "msb": 0, "lsb": 0, "ins": mel}, {"p": 1, "msb": 0, "lsb": 0, "ins": perc}]
 
 
-def init(vm, smod=0, frb=0, tlset=0, veloffs=None, tls=None, ports=1):
-    d = {"o": "init", "vm": vm, "smod": smod, "frb": frb, "lim": 0, "banks": banks(tlset, veloffs, tls)}
+def init(vm, smod=0, frb=0, tlset=0, veloffs=None, tls=None, ports=1, arp=0, lim=0, kon=0, kon_ms=None):
+    d = {"o": "init", "vm": vm, "smod": smod, "frb": frb, "lim": lim, "banks": banks(tlset, veloffs, tls)}
     if ports > 1:
         d["ports"] = ports       # channels 16..31 = second MIDI port (as in a song with FF 09 device names)
+    if arp:
+        d["arp"] = 1
+    if kon:
+        d["kon"] = 1
+    if kon_ms is not None:       # how long a held note of the bank counts as sounding (the arpeggio drops it afterwards)
+        for b in d["banks"]:
+            for i in b["ins"]:
+                i["kon"] = kon_ms
     return d
+
+
+def gen(ms, blk=128):
+    return {"o": "gen", "fr": max(1, ms * 441 // 10), "blk": blk}
 
 
 def set_axis(ax, ch, k, x, l=0):
@@ -134,6 +150,115 @@ def port_histories():
                   {"o": "on", "ch": a, "k": key, "v": 90}, full_sweep("vol", a, key), {"o": "off", "ch": a, "k": key}, {"o": "off", "ch": b, "k": key}]
             out.append(h)
     return out
+
+
+# ------------------------------------------------------------------ congestion: notes sharing / stealing chip channels
+def congestion_history(rng, arp=None, vm=None, longer=False, bends=False):
+    """More simultaneous notes than chip channels.  With the automatic arpeggio the notes of one patch that were started
+    within 70 ms time-share a chip channel: every tick re-levels, re-pitches and re-keys the channel for the note whose
+    turn it is.  Notes of 2-3 MIDI channels with their own CC7 / CC11 / CC74 (incl. zero) and velocities, distinct keys;
+    then time passes in small blocks, with controller changes in between.  Without the arpeggio (and for notes of another
+    patch, or older than 70 ms) a new note steals the channel or, with the arpeggio, the old note is evacuated.
+    bends = True adds pitch-bend events: a bend re-pitches AND re-keys every note of the MIDI channel (noteUpdateAll(Upd_Pitch)),
+    also one that shares (or shared) its chip channel with a note of another MIDI channel."""
+    arp = rng.random() < 0.7 if arp is None else arp
+    vm = rng.choice([0, 1, 2, 3, 4, 5]) if vm is None else vm
+    lim = rng.choice([0, 0, 0, 2, 3])
+    nchan = lim or 6
+    ports = 2 if rng.random() < 0.15 else 1
+    tls = None if rng.random() < 0.5 else [[rng.choice([0, 1, 63, 64, 126, 127, rng.randrange(128)]) for _ in range(4)] for _ in range(8)]
+    veloffs = [rng.choice([0, 0, 0, rng.randrange(-40, 40)]) for _ in range(8)]
+    h = [init(vm, rng.randrange(2) if rng.random() < 0.3 else 0, rng.randrange(2), tlset=rng.randrange(2), tls=tls, veloffs=veloffs,
+              ports=ports, arp=int(arp), lim=lim, kon=1, kon_ms=rng.choice([3000, 3000, 400, 40000]))]
+    chans = rng.sample([0, 1, 2, 3, 4, 5, 6, 7, 8, 10, 11, 12, 13, 14, 15] + ([16, 17, 20, 31] if ports > 1 else []), rng.choice([2, 3, 3]))
+    prog = rng.randrange(8)
+    other = (prog + 1 + rng.randrange(7)) % 8
+    mixed = rng.random() < 0.3           # one channel plays another patch: stealing / evacuation instead of sharing
+    zero_ax = rng.choice([7, 7, 11, None])
+    loud = {}
+    for j, c in enumerate(chans):
+        h.append({"o": "pc", "ch": c, "p": other if (mixed and j == len(chans) - 1) else prog})
+        vol, expr = rng.choice([127, 100, 64, 20, 1]), rng.choice([127, 127, 90, 33])
+        if j == 1 and zero_ax == 7: vol = 0
+        if j == 1 and zero_ax == 11: expr = 0
+        loud[c] = [vol, expr]
+        h.append({"o": "cc", "ch": c, "n": 7, "v": vol})
+        h.append({"o": "cc", "ch": c, "n": 11, "v": expr})
+        if rng.random() < 0.3:
+            h.append({"o": "cc", "ch": c, "n": 74, "v": rng.choice([0, 20, 63, 64, 100, 127])})
+        if rng.random() < 0.15:
+            h.append({"o": "cc", "ch": c, "n": 67, "v": 127})
+    if rng.random() < 0.2:
+        h.append({"o": "mv", "v": rng.choice([0, 1, 64, 100]), "l": 0})
+    nnotes = nchan + rng.choice([1, 1, 2, 3, 4] + ([6, 9] if longer else []))
+    keys = rng.sample(range(36, 96), nnotes)
+    vels = [rng.choice([127, 127, 100, 64, 1, rng.randrange(1, 128)]) for _ in range(nnotes)]
+    if rng.random() < 0.5:
+        vels = [vels[0]] * nnotes        # equal velocities: the notes differ in CC7 / CC11 only
+    order = [chans[i % len(chans)] for i in range(nnotes)]
+    if rng.random() < 0.5:
+        rng.shuffle(order)
+    gap = rng.choice([0, 0, 0, 5, 12, 100])     # ms between note-ons (100: no sharing, the old note is killed / evacuated)
+    sounding = []
+    # now and then drums join in (every drum key is an instrument of its own: they steal, or make melodic notes move over)
+    drums = rng.sample(range(DRUM0, DRUM0 + 8), rng.choice([1, 2, 3])) if rng.random() < 0.25 else []
+    if drums:
+        h.append({"o": "cc", "ch": 9, "n": 7, "v": rng.choice([127, 100, 0, 50])})
+    drum_at = {rng.randrange(nnotes): d for d in drums}
+    for j, (c, k, v) in enumerate(zip(order, keys, vels)):
+        if j in drum_at:
+            h.append({"o": "on", "ch": 9, "k": drum_at[j], "v": rng.choice([127, 80, 1])})
+        h.append({"o": "on", "ch": c, "k": k, "v": v})
+        sounding.append((c, k))
+        if gap and rng.random() < 0.6:
+            h.append(gen(gap, 64))
+    total = rng.choice([200, 300, 450, 600]) * (2 if longer else 1)
+    blk = rng.choice([32, 64, 128, 128, 256, 512])
+    spent = 0
+    while spent < total:
+        ms = rng.choice([15, 30, 50, 80])
+        h.append(gen(ms, blk)); spent += ms
+        r = rng.random()
+        c = rng.choice(chans)
+        if r < 0.25:
+            h.append({"o": "cc", "ch": c, "n": rng.choice([7, 7, 11]), "v": rng.choice([0, 1, 64, 127, rng.randrange(128)])})
+        elif r < 0.32:
+            h.append({"o": "mv", "v": rng.choice([0, 1, 64, 127, rng.randrange(128)]), "l": rng.randrange(128)})
+        elif r < 0.38:
+            h.append({"o": "cc", "ch": c, "n": 74, "v": rng.choice([0, 32, 63, 64, 127])})
+        elif r < 0.46 and sounding:
+            cc, kk = sounding.pop(rng.randrange(len(sounding)))
+            h.append({"o": "off", "ch": cc, "k": kk})
+        elif bends and r > 0.9:
+            h.append({"o": "bend", "ch": c, "v": rng.choice([0, 4096, 8192, 9000, 16383])})
+        elif r < 0.52:
+            k = rng.choice([x for x in range(36, 96) if x not in keys]); keys.append(k)
+            h.append({"o": "on", "ch": c, "k": k, "v": rng.choice([127, 64, 1, rng.randrange(1, 128)])}); sounding.append((c, k))
+    for (c, k) in sounding:
+        h.append({"o": "off", "ch": c, "k": k})
+    h.append(gen(20, 128))
+    return h
+
+
+def congestion_histories(rng, n, longer=False, bends=False):
+    out = []
+    # the plain situations first, for every volume model: seven notes of one patch on six chip channels, the odd one on
+    # a second MIDI channel that is silent (CC7 / CC11 = 0) or softer; then the controllers of both channels move
+    for vm in (1, 2, 3, 4, 5):
+        for arp in (1, 0):
+            for (na, nb, va, vb, odd) in ((7, 7, 100, 0, 0), (11, 11, 100, 0, 6), (7, 7, 100, 40, 6)):
+                h = [init(vm, 0, 0, tlset=0, arp=arp, kon=1, kon_ms=3000), {"o": "pc", "ch": 0, "p": 4}, {"o": "pc", "ch": 1, "p": 4},
+                     {"o": "cc", "ch": 0, "n": na, "v": va}, {"o": "cc", "ch": 1, "n": nb, "v": vb}]
+                keys = list(range(48, 55))
+                for i, k in enumerate(keys):     # the first and the last note share a chip channel
+                    h.append({"o": "on", "ch": 1 if i == odd else 0, "k": k, "v": 127})
+                h += [gen(100, 128), {"o": "cc", "ch": 0, "n": na, "v": 127}, gen(100, 128), {"o": "cc", "ch": 1, "n": nb, "v": 64}, gen(100, 64),
+                      {"o": "cc", "ch": 0, "n": na, "v": 0}, gen(100, 256), {"o": "mv", "v": 64, "l": 0}, gen(60, 128)]
+                h += [{"o": "off", "ch": 1 if i == odd else 0, "k": k} for i, k in enumerate(keys)]
+                out.append(h)
+    while len(out) < n:
+        out.append(congestion_history(rng, longer=longer, bends=bends))
+    return out[:n]
 
 
 # ------------------------------------------------------------------ boundary cases
